@@ -1,4 +1,182 @@
-//! C01 — stub, not built yet.
+//! C01 — structured control flow compiles to bytecode that means what the source says.
+//! Correspondence (translation validation of the real compiler + execution):
+//!   `C01 build …`  the model's flow-stack compiler must emit exactly the bytecode and debug map of the
+//!                  real one, or fail with the same error at the same token;
+//!   `C01 eval …`   building and running in the model must end in the same machine / error / token.
+//! Oracle (implementation only): metamorphic statements of the property — a terminated program
+//! leaves no loop index visible (`I` afterwards fails with LoopStackUnderflow), a zero-trip loop
+//! leaves the stack as it found it, a structurally endless loop under an instruction limit never
+//! returns Ok.
+use crate::canon;
+use crate::progen::{gen_program, GenCfg};
+use crate::vmcanon;
 use crate::Ctx;
+use xeh::lex::{Lex, Tok};
+use xeh::prelude::*;
 
-pub fn run(_ctx: &mut Ctx) {}
+pub const LIMIT: usize = 4000;
+
+pub struct Toks {
+    pub text: Vec<String>,          // canonical token text
+    pub ranges: Vec<(usize, usize)>,
+    pub words: Vec<String>,
+}
+
+pub fn lex_all(src: &str) -> Option<Toks> {
+    let mut lx = Lex::new(Xstr::from(src));
+    let mut t = Toks { text: vec![], ranges: vec![], words: vec![] };
+    loop {
+        match lx.next() {
+            Ok(Tok::EndOfInput) => break,
+            Ok(Tok::Whitespace(_)) | Ok(Tok::Comment(_)) => continue,
+            Ok(Tok::Word(w)) => {
+                let r = w.range();
+                t.text.push(format!("w{}", canon::hex(w.as_bytes())));
+                t.ranges.push((r.start, r.end));
+                t.words.push(w.to_string());
+            }
+            Ok(Tok::Literal(c)) => {
+                let s = lx.last_substr();
+                let r = s.range();
+                t.text.push(format!("l{}", canon::cell(&c)));
+                t.ranges.push((r.start, r.end));
+            }
+            Err(_) => return None,
+        }
+    }
+    Some(t)
+}
+
+/// index of the token whose byte range starts at `start` (the end of the text = number of tokens)
+pub fn tok_index(t: &Toks, start: usize, src_len: usize) -> String {
+    match t.ranges.iter().position(|r| r.0 == start) {
+        Some(i) => i.to_string(),
+        None => if start >= src_len { t.ranges.len().to_string() } else { format!("?{}", start) },
+    }
+}
+
+pub fn dict_for(xs: &Xstate, words: &[String]) -> String {
+    xs.verif_dict()
+        .iter()
+        .filter(|e| words.iter().any(|w| *w == e.0))
+        .map(|(name, kind, imm, num, cell, native)| {
+            format!("{}~{}~{}~{}~{}~{}", canon::hex(name.as_bytes()), kind, if *imm { 1 } else { 0 }, num,
+                cell.as_ref().map(canon::cell).unwrap_or("N".into()), canon::hex(native.as_bytes()))
+        })
+        .collect::<Vec<_>>()
+        .join("|")
+}
+
+fn base_state() -> Xstate {
+    let mut xs = Xstate::boot().unwrap();
+    xs.intercept_stdout(true);
+    xs.set_insn_limit(Some(LIMIT)).unwrap();
+    xs
+}
+
+fn err_tok(xs: &Xstate, t: &Toks, src: &str) -> String {
+    match xs.last_err_location() {
+        Some(loc) => tok_index(t, loc.token.range().start, src.len()),
+        None => "none".into(),
+    }
+}
+
+pub fn emit_program(ctx: &mut Ctx, base: &Xstate, src: &str) {
+    let t = match lex_all(src) { Some(t) => t, None => { ctx.tag("skipped:lex-error"); return; } };
+    let setup_common = {
+        let d = base.verif_dump();
+        format!("toks={} dict={} heap=v({}) lim={}/-/- view=full", t.text.join("|"), dict_for(base, &t.words),
+            d.heap.iter().map(canon::cell).collect::<Vec<_>>().join(","), LIMIT)
+    };
+    // --- build only
+    let mut xs = base.clone();
+    let code0 = xs.verif_code().len();
+    let r = crate::guarded(|| xs.compile(src));
+    let build_answer = match &r {
+        None => "panic".to_string(),
+        Some(Err(e)) => format!("err {} tok={}", canon::err(e), err_tok(&xs, &t, src)),
+        Some(Ok(())) => {
+            let code = xs.verif_code();
+            let ops: Vec<String> = code[code0..].iter().map(vmcanon::op_str).collect();
+            let dmap: Vec<String> = code[code0..].iter().map(|o| tok_index(&t, o.tok.0, src.len())).collect();
+            format!("ok code={} dmap={}", ops.join("|"), dmap.join(","))
+        }
+    };
+    ctx.tag(if build_answer.starts_with("ok") { "build:ok" } else { "build:err" });
+    ctx.case(format!("C01 build {}", setup_common), build_answer.clone());
+    // --- eval
+    let mut ys = base.clone();
+    let r = crate::guarded(|| ys.eval(src));
+    let answer = match r {
+        None => "panic@".to_string(),
+        Some(Ok(())) => format!("ok@{}", vmcanon::full_dump(&mut ys)),
+        Some(Err(e)) => {
+            if build_answer.starts_with("err") {
+                format!("builderr {} tok={}", canon::err(&e), err_tok(&ys, &t, src))
+            } else {
+                format!("err {} tok={}@{}", canon::err(&e), err_tok(&ys, &t, src), vmcanon::full_dump(&mut ys))
+            }
+        }
+    };
+    ctx.tag(&format!("eval:{}", answer.split(|c| c == ' ' || c == '@').next().unwrap_or("")));
+    let timed_out = answer.contains("insn_limit_reached");
+    ctx.case(format!("C01 eval {}", setup_common), answer);
+    // --- structural reading: actual bytecode == compileS (parseS source), evalS == VM (decided by the model;
+    //     `unsupported` when the program is outside the structured fragment)
+    if build_answer.starts_with("ok") {
+        ctx.case(format!("C01 struct {}", setup_common), if timed_out { "tv=same sem=timeout".into() } else { "tv=same sem=same".into() });
+    }
+}
+
+fn depth_after(base: &Xstate, src: &str) -> Option<(Xresult, usize)> {
+    let mut xs = base.clone();
+    let r = crate::guarded(|| xs.eval(src))?;
+    Some((r, xs.data_depth()))
+}
+
+pub fn run(ctx: &mut Ctx) {
+    let base = base_state();
+    let cfg = GenCfg { endless: true, ..GenCfg::default() };
+    for _ in 0..ctx.n {
+        let (src, tags) = gen_program(&mut ctx.rng, &cfg);
+        for t in tags.iter() { ctx.tag(&format!("prog:{}", t)); }
+        emit_program(ctx, &base, &src);
+        // oracle 1: a program that terminated normally leaves no loop index behind
+        if !tags.contains(&"malformed") {
+            if let Some((Ok(()), _)) = depth_after(&base, &src) {
+                let probe = format!("{} I", src);
+                let mut xs = base.clone();
+                let r = crate::guarded(|| xs.eval(&probe));
+                let ok = matches!(r, Some(Err(Xerr::LoopStackUnderflow)));
+                ctx.check(ok, || format!("C01 `{}`", probe), || "err LoopStackUnderflow (no loop index visible after the program)".into(), || format!("{:?}", r));
+            }
+        }
+    }
+    // oracle 2: zero-trip counted loops leave the stack as `drop drop` does; the body never runs
+    for _ in 0..(ctx.n / 4).max(50) {
+        let start = ctx.rng.range(-3, 6);
+        let lim = ctx.rng.range(-3, start);
+        let (body, _) = gen_program(&mut ctx.rng, &GenCfg { defs: false, vars: false, malformed_percent: 0, max_depth: 2, ..GenCfg::default() });
+        let src = format!("11 22 {} {} do {} 99 loop depth", lim, start, body);
+        let r = depth_after(&base, &src);
+        let ok = matches!(&r, Some((Ok(()), 3)));
+        ctx.check(ok, || format!("C01 `{}`", src), || "Ok, depth 3 (11 22 and the depth itself)".into(), || format!("{:?}", r));
+        emit_program(ctx, &base, &src);
+        ctx.tag("oracle:zero-trip");
+    }
+    // oracle 3: structurally endless loops never fall through
+    for _ in 0..(ctx.n / 4).max(50) {
+        let (body, _) = gen_program(&mut ctx.rng, &GenCfg { defs: false, vars: false, malformed_percent: 0, max_depth: 1, max_stmts: 2, ..GenCfg::default() });
+        let body = if ctx.rng.chance(30) { String::new() } else { body.replace("break", "drop") };
+        let src = match ctx.rng.below(3) {
+            0 => format!("begin {} repeat 5", body),
+            1 => format!("begin {} false until 5", body),
+            _ => format!("begin true while {} repeat 5", body),
+        };
+        let r = depth_after(&base, &src);
+        let ok = match &r { Some((Err(_), _)) => true, _ => false };
+        ctx.check(ok, || format!("C01 `{}`", src), || "an error (instruction limit or an error raised by the body), never Ok".into(), || format!("{:?}", r));
+        emit_program(ctx, &base, &src);
+        ctx.tag("oracle:endless");
+    }
+}
